@@ -3,7 +3,7 @@
    Same call structure, same membership guards, same order of list edits as the Python;
    the mutual recursion (vertex <-> link, vertex <-> universe, universe <-> laws) runs on
    explicit fuel and yields `Raise OutOfFuel` when it runs out (proved impossible for
-   fuel >= 4 in StructProofs.v).  Model-side file: definitions only.                         *)
+   fuel >= 3: LinkStep.v, RefProofs.v).  Model-side file: definitions only.                         *)
 From EG Require Import Base State Nbrs.
 
 (* Vertex._qa_neighbors_invalidate: the memo of v is replaced by an empty dict (whatever the flag) *)
